@@ -32,7 +32,7 @@ rule("C20.n", "every order the user lists is an order of the book - one executio
 
 rule("C20.p", "the mapping rows of order k carry the label k - the number that also indexes its bound and its cost (l[k], u[k], c[k]): the label "
               "comes from the loop variable over the orders (directly or through the 'var_name' column set from it), never from a count of the "
-              "frames that happened to be non-empty (an order without a step in the horizon shifts all later ones)", floor=1, props=["C20", "C08", "C07"])
+              "frames that happened to be non-empty (an order without a step in the horizon shifts all later ones)", floor=1, props=["C20", "C08", "C07", "C04"])
 
 rule("C20.q", "the steps an order delivers in are the steps that *start* inside its window - the same half-open membership test of the step "
               "starts (tp >= start) & (tp < end) that asset windows, interval data and take periods use; an interval-overlap test (every step that "
